@@ -23,7 +23,8 @@ ENTRY = {30: 'Db::createFromCSV', 31: 'Db::createFromCSV', 32: 'Db::createFromCS
 TAGS = {1: b'Db', 2: b'DbGrid', 3: b'Table', 4: b'Polygon', 5: b'Vario', 6: b'Model', 7: b'NeighMoving', 8: b'NeighUnique',
         9: b'NeighBench', 10: b'AnamHermite', 11: b'PolyLine2D', 12: b'MeshETurbo', 13: b'Rule', 14: b'Faults', 15: b'NeighImage',
         16: b'NeighCell', 17: b'AnamEmpirical', 18: b'AnamDiscreteDD', 19: b'AnamDiscreteIR', 20: b'DbLine', 21: b'PolyElem'}
-MODELLED = {1, 2, 3, 4, 11, 14, 21}
+MODELLED = {1, 2, 3, 4, 11, 14, 21, 5, 6, 7, 8, 9, 10, 13, 16}
+ONE_SIDED = {6}     # Model: the construction of covariances / drifts is an oracle of the model (it answers yes): an ok of the model may be a failure downstream
 CAP = 256 << 20          # one allocation request above this is refused in the child (harness + ASan option) and in the model
 BIGFUEL = 300000         # fuel of the second model run (the theorems use |f|+1)
 ALLOC_A, ALLOC_B = 256, 1 << 20     # observed largest request must stay below ALLOC_A * |file| + ALLOC_B
@@ -33,7 +34,9 @@ ASAN = ('detect_leaks=0:abort_on_error=0:exitcode=86:allocator_may_return_null=1
 def entry(cls): return ENTRY.get(cls, CLS[cls] + '::createFromNF')
 
 # model sites -> (function, kind of defect)
-SITE = {1: '_recordRead', 11: '_recordReadVec<String>(locators)', 12: '_recordReadVec<String>(names)', 13: 'Db::_deserialize',
+SITE = {50: 'value-loop', 51: 'Rule::_deserialize', 52: 'Rule::_deserialize', 61: 'AnamHermite::_deserialize', 71: 'ANeigh::_deserialize', 72: 'NeighMoving::_deserialize',
+        81: 'Vario::_deserialize', 82: 'Vario::_deserialize', 83: 'Vario::_deserialize', 84: 'Vario::_deserialize', 91: 'Model::_deserialize', 92: 'Model::_deserialize', 93: 'Model::_deserialize', 94: 'Model::_deserialize',
+        1: '_recordRead', 11: '_recordReadVec<String>(locators)', 12: '_recordReadVec<String>(names)', 13: 'Db::_deserialize',
         14: '_recordReadVecInPlace', 15: 'Db::resetDims', 16: 'Db::setLocatorByUID', 17: 'Db::_loadData', 18: 'correctNewNameForDuplicates',
         21: 'DbGrid::_deserialize', 22: 'DbGrid::_deserialize', 23: 'DbGrid::_deserialize:Rotation', 31: 'Table::_deserialize', 32: 'Table::_deserialize',
         41: 'PolyLine2D::_deserialize', 42: '_recordReadVec<double>', 43: 'Polygons::_deserialize', 44: 'Faults::_deserialize'}
@@ -42,7 +45,9 @@ def model_key(o):
     code = o[0]
     fn = SITE.get(o[-1], 'site%d' % o[-1])
     if code == 2 and o[2] == 16: return 'Db::_deserialize:locator-rank-used-as-size'
+    if code == 3 and o[1] == 52: return 'Rule::_deserialize:crash-on-corrupted-field'
     if code == 3: return fn + ':store-out-of-bounds'
+    if code == 2 and o[1] in (3, 4): return fn + ':crash-on-corrupted-field'
     if code == 2: return fn + ':count-from-file-unchecked'
     if code == 4: return fn + ':count-loop-without-input'
     return None
@@ -143,6 +148,11 @@ def dump_equal(cls, di, dm):
         if cls == 21: return num_close(di[0], dm[0]) and num_close(di[1], dm[1]) and nums_close(di[2], dm[2]) and nums_close(di[3], dm[3])
         if cls == 11: return nums_close(di[0], dm[0]) and nums_close(di[1], dm[1])
         if cls == 14: return len(di) == len(dm) and all(dump_equal(11, a, b) for a, b in zip(di, dm))
+        if cls == 13: return di[0] == dm[0] and num_close(di[1], dm[1])
+        if cls == 10: return di[0] == dm[0] and num_close(di[2], dm[2])     # the coefficients returned by getPsiHns depend on r (point -> block): not compared
+        if cls in (8, 16, 7, 6): return list(di) == list(dm)
+        if cls == 9: return di[0] == dm[0] and num_close(di[1], dm[1])
+        if cls == 5: return di[0] == dm[0] and di[1] == dm[1] and di[2] == dm[2] and di[3] == dm[3] and di[4] == dm[4]
     except (IndexError, TypeError):
         return False
     return False
@@ -150,10 +160,13 @@ def dump_equal(cls, di, dm):
 def matches(cls, oi, om):
     """impl outcome oi against one model outcome om"""
     code = om[0]
-    if code == 0: return oi['kind'] == 'fail'
-    if code == 1: return oi['kind'] == 'ok' and dump_equal(cls, oi['dump'], om[1])
+    if code == 0: return oi['kind'] == 'fail' or (cls in ONE_SIDED and oi['kind'] == 'throw' and oi['code'] == 3)
+    if code == 1:
+        if cls in ONE_SIDED and (oi['kind'] == 'fail' or (oi['kind'] == 'throw' and oi['code'] == 3)): return True
+        if cls == 13 and not om[3]: return oi['kind'] in ('ok', 'crash')     # a Rule whose tree is not complete: using it may crash
+        return oi['kind'] == 'ok' and dump_equal(cls, oi['dump'], om[1])
     if code == 2:
-        if om[1] == 3: return oi['kind'] == 'crash' and oi['what'] in ('assertion', 'ABRT')
+        if om[1] == 3: return oi['kind'] == 'crash' and oi['what'] in ('assertion', 'ABRT', 'exit-1')
         return oi['kind'] == 'throw' and oi['code'] == om[1]
     if code == 3: return oi['kind'] == 'crash' and oi['what'] not in ('assertion', 'ABRT', 'terminate')
     if code == 4: return oi['kind'] == 'timeout' or (oi['kind'] == 'throw' and oi['code'] == 1)
@@ -496,7 +509,7 @@ def check(ctx, quick, rng, runner, exe, tmpdir, proofs_ok):
                            replay_of(cls, data, oi, model[i]), len(data))
                 elif generic_bad:
                     found_input = True
-                    report(CLS[cls] + '::_deserialize:count-from-file-unchecked', '%s: %s' % (name, generic_bad), replay_of(cls, data, oi, model[i]), len(data))
+                    report(generic_key(cls, oi), '%s: %s' % (name, generic_bad), replay_of(cls, data, oi, model[i]), len(data))
                 else:
                     stats['agree'] += 1
                     if oi['kind'] == 'ok': check_flags(cls, lab, data, oi, report, name)
@@ -589,6 +602,10 @@ def impl_illformed(cls, d):
     return False
 
 def illformed_why(cls, d):
+    if cls == 13: return 'the tree of nodes described by the file is refused or incomplete, the object is returned all the same'
+    if cls == 5: return 'a direction of the file was not added to the VarioParam (grid and non-grid definitions mixed): results and directions no longer match'
+    return illformed_why0(cls, d)
+def illformed_why0(cls, d):
     if cls == 2:
         g, db = d
         if db[1] != (0 if g[0] <= 0 else prod(g[1])): return 'number of samples %d differs from the grid size %s' % (db[1], g[1])
@@ -610,6 +627,7 @@ def illformed_key(cls, d):
         ncol, nech, names, uid, locs, arr = d
         if ncol < 0 or nech < 0: return 'Db::_deserialize:negative-count-accepted'
         return 'Db::_deserialize:locator-rank-beyond-count'
+    if cls in (13, 5): return CLS[cls] + '::_deserialize:crash-on-corrupted-field'
     return CLS[cls] + '::_deserialize:ill-formed-object'
 def prod(l):
     p = 1
